@@ -92,5 +92,5 @@ def run(ctx, rep):
         if any(e.kind != "P" for e in es) and q not in {f.qname for f in eps}:
             muts.append(q.split("metapype.")[-1])
     rep.extra["functions_with_model_effects"] = muts
-    rep.floor("read-only entry points", 40)
-    rep.floor("functions summarised", 60)
+    rep.floor("read-only entry points", 30)
+    rep.floor("functions summarised", 40)
